@@ -478,3 +478,106 @@ Section Pipe.
     rewrite U2. cbn [lookup]. rewrite String.eqb_refl. reflexivity.
   Qed.
 End Pipe.
+
+(* ------------------------------------------------------------------ Part D: check_conf and main *)
+
+Lemma input_shape_form def c : input_shape def c = true ->
+  exists l r, c = [("input", JDict [("left", JDict l); ("right", JDict r)])].
+Proof.
+  unfold input_shape.
+  destruct def as [|[i1 [| | | | | | | |[|[l1 [| | | | | | | |dl]] [|[r1 [| | | | | | | |dr]] [|]]]]] [|]]; try discriminate.
+  destruct c as [|[i2 [| | | | | | | |[|[l2 [| | | | | | | |l]] [|[r2 [| | | | | | | |r]] [|]]]]] [|]]; try discriminate.
+  rewrite !andb_true_iff. intros [[[[[[[[[E1 E2] E3] E4] E5] E6] F1] F2] X1] X2].
+  apply String.eqb_eq in E2, E4, E6. subst. exists l, r. reflexivity.
+Qed.
+
+Section MainD.
+  Variable D : input_defs.
+  Variable orc : string -> jv -> option bool.
+  Variable grid_ok : jv -> jv -> bool.
+  Variable images_ok : dict -> bool.
+  Variable bands_of : jv -> list jv.
+  Variable classes : list class_def.
+  Variable interp : list string.
+  Hypothesis W : classes_wf classes = true.
+
+  Notation input_check := (input_check D orc grid_ok images_ok).
+  Notation full_check := (full_check D orc grid_ok images_ok bands_of classes interp).
+  Notation main_saved := (main_saved D orc grid_ok images_ok bands_of classes interp).
+
+  (* the guard of the replay theorems (decidable; evaluated by the harness on every case):
+     the completed input section is {"input": {"left": scalars, "right": scalars}} extending
+     the defaults in place, the steps hold no "NaN" string after update_conf, the completed
+     steps hold scalars only, no key twice *)
+  Definition replay_guard (user : dict) : bool :=
+    match input_check (section_of "input" user) with
+    | Some cfg_in =>
+      input_shape (i_default D) cfg_in
+      && match images_of bands_of cfg_in with
+         | Some im => pipe_guard classes interp im (section_of "pipeline" user)
+         | None => false
+         end
+    | None => false
+    end.
+
+  Lemma full_check_form user cfg :
+    full_check user = Some cfg -> replay_guard user = true ->
+    exists l r done im,
+      cfg = [("input", JDict [("left", JDict l); ("right", JDict r)]); ("pipeline", JDict done)]
+      /\ input_check [("input", JDict [("left", JDict l); ("right", JDict r)])]
+         = Some [("input", JDict [("left", JDict l); ("right", JDict r)])]
+      /\ images_of bands_of [("input", JDict [("left", JDict l); ("right", JDict r)])] = Some im
+      /\ pipeline_check classes interp im [("pipeline", JDict done)] = Some [("pipeline", JDict done)].
+  Proof.
+    unfold SavedCfg.full_check, replay_guard.
+    destruct (input_check (section_of "input" user)) as [cfg_in|] eqn:Ic; [|discriminate].
+    destruct (images_of bands_of cfg_in) as [im|] eqn:Im; [|discriminate].
+    destruct (pipeline_check classes interp im (section_of "pipeline" user)) as [cfg_p|] eqn:Pc; [|discriminate].
+    intros H G. apply andb_prop in G as [Sh Pg].
+    destruct (input_shape_form _ _ Sh) as [l [r El]]. subst cfg_in.
+    destruct (pipeline_check_out classes interp W im _ cfg_p Pc Pg) as [done [Ep [F [Fx Sw]]]]. subst cfg_p.
+    exists l, r, done, im. split.
+    - inversion H. unfold concat_conf. cbn [fold_left fst snd set_key].
+      change ("pipeline" =? "input") with false. reflexivity.
+    - split; [|split; [exact Im|]].
+      + apply (input_check_fix D orc grid_ok images_ok _ _ Ic). apply update_conf_input_shape. exact Sh.
+      + apply (pipeline_check_fix classes interp im done F Fx Sw).
+  Qed.
+
+  (* THE CHECKED CONFIGURATION IS A FIXPOINT OF check_conf, and a "margins" entry (any value)
+     added to it is ignored *)
+  Theorem full_check_fixpoint user cfg :
+    full_check user = Some cfg -> replay_guard user = true ->
+    full_check cfg = Some cfg /\ forall m, full_check (set_key "margins" m cfg) = Some cfg.
+  Proof.
+    intros H G. destruct (full_check_form user cfg H G) as [l [r [done [im [E [Ic [Im Pc]]]]]]]. subst cfg.
+    assert (X : forall extra,
+      full_check ([("input", JDict [("left", JDict l); ("right", JDict r)]); ("pipeline", JDict done)] ++ extra)
+      = Some [("input", JDict [("left", JDict l); ("right", JDict r)]); ("pipeline", JDict done)]).
+    { intro extra. unfold SavedCfg.full_check, section_of. cbn [app lookup]. rewrite !String.eqb_refl.
+      change ("pipeline" =? "input") with false. cbv iota.
+      rewrite Ic, Im, Pc. unfold concat_conf. cbn [fold_left fst snd set_key].
+      change ("pipeline" =? "input") with false. reflexivity. }
+    split; [rewrite <- (app_nil_r [_; _]); apply X|].
+    intro m. cbn [set_key]. change ("margins" =? "input") with false. change ("margins" =? "pipeline") with false.
+    cbv iota. apply (X [("margins", m)]).
+  Qed.
+
+  (* THE SAVED CONFIGURATION REPLAYS.  When the run rewrites nothing (no confidence step whose
+     `indicator` differs from the suffix of its name) main saves the checked configuration plus
+     the margins; feeding the saved file back is accepted, yields the same checked
+     configuration, and (margins being a function of the checked configuration, C20) saves the
+     same file again. *)
+  Theorem main_saved_replays user m saved :
+    main_saved m user = Some saved -> replay_guard user = true ->
+    (forall cfg, full_check user = Some cfg -> run_rewrites cfg = cfg) ->
+    exists cfg, full_check user = Some cfg /\ saved = set_key "margins" m cfg
+                /\ full_check saved = Some cfg /\ main_saved m saved = Some saved.
+  Proof.
+    unfold SavedCfg.main_saved. destruct (full_check user) as [cfg|] eqn:Fc; [|discriminate].
+    intros H G R. rewrite (R cfg eq_refl) in H. inversion H. subst saved. exists cfg.
+    destruct (full_check_fixpoint user cfg Fc G) as [_ Fm].
+    split; [reflexivity|]. split; [reflexivity|]. split; [apply Fm|].
+    rewrite (Fm m). rewrite (R cfg eq_refl). reflexivity.
+  Qed.
+End MainD.
